@@ -1,6 +1,350 @@
-/- C08 — property theorems.  Stub. -/
-import CBV.Model.C08
+/-
+C08 — property theorems.  All of them hold over every linearly ordered field `K` (so over ℝ, where the
+square-root witnesses always exist, and over ℚ, where the driver executes the same definitions).
+A witness `w` of `sqrt x` is a number with `0 ≤ w` and `w * w = x`.
+
+  T_C08_origin          arc_from_origin (flatness 1, equidistant origin): the written point is the arc's middle
+  T_C08_origin_adjust   the adjusted centre of arc_from_origin is at the requested radius from both ends, in the plane
+  T_C08_unique          the specification `OnArcMid` has at most one solution
+  T_C08_theta_centre    the centre of arc_from_theta is equidistant and sees the chord under the angle θ about the axis
+  T_C08_theta_mid       the written point of arc_from_theta is p1 rotated about the axis through the centre by θ/2,
+                        for every θ in (0, 2π) of either sign (closed form: pm + tan(θ/4)/2 · (dp × axis))
+  T_C08_theta_onarc     … hence it satisfies `OnArcMid`
+  T_C08_arc3_centre     the centre computed by arc_length_3point is equidistant from the 3 points, in their plane
+  T_C08_arc3_side_mid   the interior/exterior test is right whenever the third point is the arc's middle
+  T_C08_arc3_side_partial one direction of the (false) equivalence `0 ≤ test ↔ interior`: an "exterior" decision is always right
+  T_C08_arc3_side_counterexample   … an "interior" decision is not (known finding, same as blockMesh)
+  T_C08_chord           polyline length ≥ distance of the end points (every point list, every witness list)
+The `acos` step (arc length = radius × angle) and `R·θ ≥ chord` for arcs are validator-checked only.
+-/
+import CBV.Lemmas.C08
+import Mathlib.Tactic.NormNum
+import Mathlib.Algebra.Order.Field.Rat
 
 namespace CBV.C08
+open Vec
+
+variable {K : Type} [Field K] [LinearOrder K] [IsStrictOrderedRing K]
+set_option linter.unusedSectionVars false
+
+/-! ### origin specification -/
+
+/-- `arc_from_origin` with an equidistant origin and flatness 1 returns `arc_mid(center, p1, p2)`;
+    that point is on the circle, equidistant from both ends, in the plane of `p1, p2, C`, on the chord's side
+    (the minor arc, which is what the origin specification means). -/
+theorem T_C08_origin (p1 p2 C : Vec K) (wR ws : K)
+    (heq : nsq (sub p1 C) = nsq (sub p2 C))
+    (hR0 : 0 < wR) (hR : wR * wR = nsq (sub C p1))
+    (hs0 : 0 < ws) (hs : ws * ws = nsq (sub (midPoint p1 p2) C)) :
+    OnArcMid p1 p2 C (cross (sub p1 C) (sub p2 C)) (sub (midPoint p1 p2) C) (arcMid C p1 p2 wR ws) := by
+  obtain ⟨t, ht⟩ : ∃ t, wR / ws = t := ⟨_, rfl⟩
+  have hRt : wR = t * ws := by rw [← ht]; field_simp
+  have hne : ws ≠ 0 := ne_of_gt hs0
+  have hx : ∀ v : K, wR * (v / ws) = t * v := by intro v; rw [← ht]; field_simp
+  refine ⟨?_, ?_, ?_, ?_⟩
+  · simp only [arcMid, nsq, dot, sub, add, smul, midPoint, unitVec, hx] at hs hR ⊢
+    linear_combination (-(t^2)) * hs + hR - (t*ws + wR) * hRt
+  · simp only [arcMid, nsq, dot, sub, add, smul, midPoint, unitVec, hx] at heq ⊢
+    linear_combination (1 - t) * heq
+  · simp only [arcMid, dot, sub, add, smul, midPoint, unitVec, cross, hx]
+    ring
+  · have key : dot (sub (arcMid C p1 p2 wR ws) C) (sub (midPoint p1 p2) C) = wR * ws := by
+      simp only [arcMid, nsq, dot, sub, add, smul, midPoint, unitVec, hx] at hs ⊢
+      rw [hRt]
+      linear_combination (-t) * hs
+    rw [key]; exact mul_pos hR0 hs0
+
+/-- non-vacuity: radius 25, half angle with cos 4/5 -/
+example : (nsq (sub (⟨25, 0, 0⟩ : Vec Rat) ⟨0, 0, 0⟩) = nsq (sub (⟨7, 24, 0⟩ : Vec Rat) ⟨0, 0, 0⟩)) ∧
+    (25 : Rat) * 25 = nsq (sub (⟨0, 0, 0⟩ : Vec Rat) ⟨25, 0, 0⟩) ∧
+    (20 : Rat) * 20 = nsq (sub (midPoint (⟨25, 0, 0⟩ : Vec Rat) ⟨7, 24, 0⟩) ⟨0, 0, 0⟩) ∧
+    arcMid (⟨0, 0, 0⟩ : Vec Rat) ⟨25, 0, 0⟩ ⟨7, 24, 0⟩ 25 20 = ⟨20, 15, 0⟩ := by
+  norm_num [nsq, dot, sub, midPoint, arcMid, add, smul, unitVec]
+
+/-- the adjusted centre (`needs_adjust` branch) lies at distance `radius` from both end points and in the plane of
+    `p1, p3` and the given origin -/
+theorem T_C08_origin_adjust (p1 p3 C : Vec K) (radius wh wac : K)
+    (hh : wh * wh = radius * radius - nsq (sub p3 p1) / 4)
+    (hac0 : 0 < wac) (hac : wac * wac = nsq (cross (cross (sub p1 C) (sub p3 C)) (sub p3 p1))) :
+    let N := originNewCentre p1 p3 C wh wac
+    nsq (sub p1 N) = radius * radius ∧ nsq (sub p3 N) = radius * radius ∧
+      dot (sub N (midPoint p1 p3)) (cross (sub p1 C) (sub p3 C)) = 0 := by
+  intro N
+  obtain ⟨t, ht⟩ : ∃ t, wh / wac = t := ⟨_, rfl⟩
+  have hne : wac ≠ 0 := ne_of_gt hac0
+  have hx : ∀ v : K, wh * (v / wac) = t * v := by intro v; rw [← ht]; field_simp
+  have hwh : wh = t * wac := by rw [← ht]; field_simp
+  have hN : N = add (midPoint p1 p3) (smul t (cross (cross (sub p1 C) (sub p3 C)) (sub p3 p1))) := by
+    apply Vec.ext' <;> simp only [N, originNewCentre, add, smul, unitVec, hx]
+  have hh' : t * t * (wac * wac) = radius * radius - nsq (sub p3 p1) / 4 := by rw [← hh, hwh]; ring
+  rw [hac] at hh'
+  obtain ⟨g, hg⟩ : ∃ g, g = cross (sub p1 C) (sub p3 C) := ⟨_, rfl⟩
+  rw [← hg] at hh' hN ⊢
+  rw [hN]
+  refine ⟨?_, ?_, ?_⟩
+  · simp only [nsq, dot, sub, add, smul, midPoint, cross] at hh' ⊢
+    linear_combination hh'
+  · simp only [nsq, dot, sub, add, smul, midPoint, cross] at hh' ⊢
+    linear_combination hh'
+  · simp only [dot, sub, add, smul, midPoint, cross]; ring
+
+example : ((6 : Rat) * 6 = (13 / 2) * (13 / 2) - nsq (sub (⟨0, 4, 0⟩ : Vec Rat) ⟨3, 0, 0⟩) / 4) ∧
+    (60 : Rat) * 60 = nsq (cross (cross (sub (⟨3, 0, 0⟩ : Vec Rat) ⟨0, 0, 0⟩) (sub ⟨0, 4, 0⟩ ⟨0, 0, 0⟩)) (sub ⟨0, 4, 0⟩ ⟨3, 0, 0⟩)) := by
+  norm_num [nsq, dot, sub, cross]
+
+/-! ### uniqueness of the specification -/
+
+/-- there is at most one middle point: the four clauses of `OnArcMid` determine `M` -/
+theorem T_C08_unique (p1 p2 C n g M M' : Vec K)
+    (heq : nsq (sub p1 C) = nsq (sub p2 C))
+    (hk : nsq (cross (sub p2 p1) n) ≠ 0)
+    (h : OnArcMid p1 p2 C n g M) (h' : OnArcMid p1 p2 C n g M') : M = M' := by
+  obtain ⟨hc, he, hn, hg⟩ := h
+  obtain ⟨hc', he', hn', hg'⟩ := h'
+  have hd : dot (sub M C) (sub p2 p1) = 0 := by
+    simp only [nsq, dot, sub] at heq he ⊢
+    linear_combination (1/2 : K) * he - (1/2 : K) * heq
+  have hd' : dot (sub M' C) (sub p2 p1) = 0 := by
+    simp only [nsq, dot, sub] at heq he' ⊢
+    linear_combination (1/2 : K) * he' - (1/2 : K) * heq
+  have hp := perp_parallel _ _ _ hn hd
+  have hp' := perp_parallel _ _ _ hn' hd'
+  have hs := perp_dot_sq _ _ _ hn hd
+  have hs' := perp_dot_sq _ _ _ hn' hd'
+  set k := cross (sub p2 p1) n with hkdef
+  set α := dot (sub M C) k
+  set β := dot (sub M' C) k
+  have hsq : (α - β) * (α + β) = 0 := by
+    have : α * α = β * β := by rw [hs, hs', hc, hc']
+    linear_combination this
+  rcases mul_eq_zero.mp hsq with h1 | h1
+  · have hαβ : α = β := by linear_combination h1
+    rw [hαβ, ← hp'] at hp
+    have kx := congrArg Vec.x hp
+    have ky := congrArg Vec.y hp
+    have kz := congrArg Vec.z hp
+    simp only [smul, sub] at kx ky kz
+    have cx := mul_left_cancel₀ hk kx
+    have cy := mul_left_cancel₀ hk ky
+    have cz := mul_left_cancel₀ hk kz
+    apply Vec.ext' <;> linarith
+  · exfalso
+    have hαβ : α = -β := by linear_combination h1
+    -- then M − C = −(M' − C), which contradicts the side condition
+    have hneg : smul (nsq k) (sub M C) = smul (nsq k) (smul (-1) (sub M' C)) := by
+      rw [hp, hαβ]
+      apply Vec.ext' <;> simp only [smul] <;>
+        [have := congrArg Vec.x hp'; have := congrArg Vec.y hp'; have := congrArg Vec.z hp'] <;>
+        simp only [smul] at this <;> linear_combination this
+    have kx := congrArg Vec.x hneg
+    have ky := congrArg Vec.y hneg
+    have kz := congrArg Vec.z hneg
+    simp only [smul, sub] at kx ky kz
+    have cx := mul_left_cancel₀ hk kx
+    have cy := mul_left_cancel₀ hk ky
+    have cz := mul_left_cancel₀ hk kz
+    have : dot (sub M C) g = - dot (sub M' C) g := by
+      simp only [dot, sub]; rw [cx, cy, cz]; ring
+    linarith
+
+example : OnArcMid (⟨25, 0, 0⟩ : Vec Rat) ⟨7, 24, 0⟩ ⟨0, 0, 0⟩ ⟨0, 0, 1⟩ ⟨16, 12, 0⟩ ⟨20, 15, 0⟩ ∧
+    nsq (cross (sub (⟨7, 24, 0⟩ : Vec Rat) ⟨25, 0, 0⟩) ⟨0, 0, 1⟩) ≠ 0 := by
+  norm_num [OnArcMid, nsq, dot, sub, cross]
+
+/-! ### sector angle and axis -/
+
+/-- The centre of `arc_from_theta` (unit axis `a`, chord orthogonal to it, `(c, s) = (cos θ/2, sin θ/2)`):
+    equidistant from both ends, in the plane of the end points orthogonal to the axis, and `p2 − C` is `p1 − C`
+    rotated about the axis by θ (cos θ = c² − s², sin θ = 2sc): the chord is seen under the signed angle θ. -/
+theorem T_C08_theta_centre (p1 p2 a : Vec K) (c s wrm wc : K) (ha : nsq a = 1)
+    (hl : dot (sub p2 p1) a = 0) (hcs : c * c + s * s = 1) (hs : s ≠ 0)
+    (hrm0 : 0 < wrm) (hrm : wrm * wrm = nsq (cross (sub p2 p1) a))
+    (hc0 : 0 ≤ wc) (hc : wc * wc = nsq (thetaChord p1 p2 a)) :
+    let C := thetaCentre p1 p2 a c s wrm wc
+    nsq (sub p1 C) = nsq (sub p2 C) ∧ dot (sub C p1) a = 0 ∧
+      sub p2 C = rotPerp a (sub p1 C) (c * c - s * s) (2 * s * c) := by
+  intro C
+  have hC : C = _ := theta_centre_closed p1 p2 a c s wrm wc ha hl hs hrm0 hrm hc0 hc
+  obtain ⟨q, hq0⟩ : ∃ q, q = c / (2 * s) := ⟨_, rfl⟩
+  have hq : 2 * s * q = c := by rw [hq0]; field_simp
+  rw [← hq0] at hC
+  have hrot := rot_centre p1 p2 a c s q ha hl hcs hq
+  simp only at hrot
+  rw [hC]
+  refine ⟨?_, ?_, hrot⟩
+  · simp only [nsq, dot, sub, smul, midPoint, cross]; ring
+  · simp only [dot, sub] at hl
+    simp only [dot, sub, smul, midPoint, cross]
+    linear_combination (1 / 2 : K) * hl
+
+/-- The point written by (the repaired) `arc_from_theta`, for every sector angle in (0, 2π) of either sign
+    (`hθ`: the sign of θ is the sign of `sin θ/2`; `c < 0` is the case |θ| > π): `M − C` is `p1 − C` rotated about
+    the axis by θ/2 — the middle of the arc of angle θ —, `|M − C|` is the radius, and in closed form
+    `M = pm + (1 − c)/(2s) · (dp × a)`, i.e. the sagitta is `|chord|/2 · tan(θ/4)`. -/
+theorem T_C08_theta_mid (p1 p2 a : Vec K) (θ c s wrm wc wR : K) (ha : nsq a = 1)
+    (hl : dot (sub p2 p1) a = 0) (hcs : c * c + s * s = 1)
+    (hθ : (0 < θ ∧ 0 < s) ∨ (θ < 0 ∧ s < 0))
+    (hrm0 : 0 < wrm) (hrm : wrm * wrm = nsq (cross (sub p2 p1) a))
+    (hc0 : 0 ≤ wc) (hc : wc * wc = nsq (thetaChord p1 p2 a))
+    (hR0 : 0 ≤ wR) (hR : wR * wR = nsq (sub p1 (thetaCentre p1 p2 a c s wrm wc))) :
+    let C := thetaCentre p1 p2 a c s wrm wc
+    let M := thetaMid p1 p2 a θ c s wrm wc wR
+    sub M C = rotPerp a (sub p1 C) c s ∧ nsq (sub M C) = wR * wR ∧
+      M = add (midPoint p1 p2) (smul ((1 - c) / (2 * s)) (cross (sub p2 p1) a)) := by
+  intro C M
+  have hs : s ≠ 0 := by rcases hθ with h | h <;> [exact ne_of_gt h.2; exact ne_of_lt h.2]
+  have hM : M = _ := theta_mid_closed p1 p2 a θ c s wrm wc wR ha hl hcs hθ hrm0 hrm hc0 hc hR0 hR
+  have h4 := theta_radius p1 p2 a c s wrm wc wR ha hl hcs hs hrm0 hrm hc0 hc hR
+  have hC : C = _ := theta_centre_closed p1 p2 a c s wrm wc ha hl hs hrm0 hrm hc0 hc
+  obtain ⟨q, hq0⟩ : ∃ q, q = c / (2 * s) := ⟨_, rfl⟩
+  have hq : 2 * s * q = c := by rw [hq0]; field_simp
+  obtain ⟨r, hr0⟩ : ∃ r, r = 1 / (2 * s) := ⟨_, rfl⟩
+  have hr : 2 * s * r = 1 := by rw [hr0]; field_simp
+  rw [← hq0] at hC
+  rw [← hr0] at hM
+  have hrot := rot_mid p1 p2 a c s q r ha hl hcs hq hr
+  simp only at hrot
+  have hMC : sub M C = smul r (cross (sub p2 p1) a) := by
+    rw [hM]; apply Vec.ext' <;> simp only [sub, add, smul] <;> ring
+  refine ⟨?_, ?_, ?_⟩
+  · rw [hMC, hC]; exact hrot
+  · rw [hMC]
+    have : nsq (smul r (cross (sub p2 p1) a)) = r * r * nsq (cross (sub p2 p1) a) := by
+      simp only [nsq, dot, smul]; ring
+    rw [this, ← hrm]
+    linear_combination (-(r * r)) * h4 + (wR * wR * (2 * s * r + 1)) * hr
+  · rw [hM]
+    have hrq : (1 - c) / (2 * s) = r - q := by rw [hr0, hq0]; field_simp
+    rw [hrq]
+    change add C _ = _
+    rw [hC]
+    apply Vec.ext' <;> simp only [sub, add, smul] <;> ring
+
+/-- … hence the written point satisfies the specification `OnArcMid` (plane normal = the axis, side = `s · (dp × a)`),
+    which by `T_C08_unique` has no other solution. -/
+theorem T_C08_theta_onarc (p1 p2 a : Vec K) (θ c s wrm wc wR : K) (ha : nsq a = 1)
+    (hl : dot (sub p2 p1) a = 0) (hcs : c * c + s * s = 1)
+    (hθ : (0 < θ ∧ 0 < s) ∨ (θ < 0 ∧ s < 0))
+    (hrm0 : 0 < wrm) (hrm : wrm * wrm = nsq (cross (sub p2 p1) a))
+    (hc0 : 0 ≤ wc) (hc : wc * wc = nsq (thetaChord p1 p2 a))
+    (hR0 : 0 ≤ wR) (hR : wR * wR = nsq (sub p1 (thetaCentre p1 p2 a c s wrm wc))) :
+    OnArcMid p1 p2 (thetaCentre p1 p2 a c s wrm wc) a (smul s (cross (sub p2 p1) a))
+      (thetaMid p1 p2 a θ c s wrm wc wR) := by
+  have hs : s ≠ 0 := by rcases hθ with h | h <;> [exact ne_of_gt h.2; exact ne_of_lt h.2]
+  obtain ⟨h1, h2, h3⟩ := T_C08_theta_mid p1 p2 a θ c s wrm wc wR ha hl hcs hθ hrm0 hrm hc0 hc hR0 hR
+  have hM : thetaMid p1 p2 a θ c s wrm wc wR = _ :=
+    theta_mid_closed p1 p2 a θ c s wrm wc wR ha hl hcs hθ hrm0 hrm hc0 hc hR0 hR
+  have hMC : sub (thetaMid p1 p2 a θ c s wrm wc wR) (thetaCentre p1 p2 a c s wrm wc)
+      = smul (1 / (2 * s)) (cross (sub p2 p1) a) := by
+    rw [hM]; apply Vec.ext' <;> simp only [sub, add, smul] <;> ring
+  refine ⟨by rw [h2, hR], ?_, ?_, ?_⟩
+  · rw [h3]; simp only [nsq, dot, sub, add, smul, midPoint, cross]; ring
+  · rw [hMC]; simp only [dot, smul, cross]; ring
+  · rw [hMC]
+    have : dot (smul (1 / (2 * s)) (cross (sub p2 p1) a)) (smul s (cross (sub p2 p1) a))
+        = nsq (cross (sub p2 p1) a) / 2 := by
+      simp only [nsq, dot, smul]; field_simp
+    rw [this, ← hrm]
+    have := mul_pos hrm0 hrm0
+    linarith
+
+/-- non-vacuity: a sector angle above π (θ/2 has cos −3/5, sin 4/5, θ ≈ 253.7°), chord 8, radius 5:
+    the written point is the middle of the *major* arc -/
+example :
+    let p1 : Vec Rat := ⟨0, 0, 0⟩; let p2 : Vec Rat := ⟨8, 0, 0⟩; let a : Vec Rat := ⟨0, 0, 1⟩
+    nsq a = 1 ∧ dot (sub p2 p1) a = 0 ∧ ((-3 / 5 : Rat) * (-3 / 5) + (4 / 5) * (4 / 5) = 1) ∧
+    ((8 : Rat) * 8 = nsq (cross (sub p2 p1) a)) ∧ ((8 : Rat) * 8 = nsq (thetaChord p1 p2 a)) ∧
+    thetaCentre p1 p2 a (-3 / 5) (4 / 5) 8 8 = ⟨4, -3, 0⟩ ∧
+    ((5 : Rat) * 5 = nsq (sub p1 (thetaCentre p1 p2 a (-3 / 5) (4 / 5) 8 8))) ∧
+    thetaMid p1 p2 a 4 (-3 / 5) (4 / 5) 8 8 5 = ⟨4, -8, 0⟩ := by
+  norm_num [nsq, dot, sub, cross, thetaChord, thetaCentre, thetaMid, midPoint, unitVec, smul, add, sgn]
+
+/-! ### three-point arc -/
+
+/-- the centre computed by `arc_length_3point` is equidistant from the three points and lies in their plane -/
+theorem T_C08_arc3_centre (pS pB pE : Vec K) (hden : arc3Denom pS pB pE ≠ 0) :
+    let C := arc3Centre pS pB pE
+    nsq (sub C pS) = nsq (sub C pB) ∧ nsq (sub C pS) = nsq (sub C pE) ∧
+      dot (sub C pS) (cross (sub pB pS) (sub pE pS)) = 0 := by
+  intro C
+  obtain ⟨f, hf⟩ : ∃ f, f = (nsq (sub pE pS) - dot (sub pB pS) (sub pE pS)) / (2 * arc3Denom pS pB pE) := ⟨_, rfl⟩
+  have hfD : f * arc3Denom pS pB pE = (nsq (sub pE pS) - dot (sub pB pS) (sub pE pS)) / 2 := by
+    rw [hf]; field_simp
+  have hC : C = add (add pS (unitVec (sub pB pS) 2)) (smul f (cross (cross (sub pB pS) (sub pE pS)) (sub pB pS))) := by
+    simp only [C, arc3Centre, hf]
+  have h1 : dot (sub C pS) (sub pB pS) = nsq (sub pB pS) / 2 := by
+    rw [hC]; simp only [nsq, dot, sub, add, smul, cross, unitVec]; ring
+  have h2 : dot (sub C pS) (sub pE pS) = dot (sub pB pS) (sub pE pS) / 2 + f * arc3Denom pS pB pE := by
+    rw [hC]; simp only [arc3Denom, nsq, dot, sub, add, smul, cross, unitVec]; ring
+  refine ⟨?_, ?_, ?_⟩
+  · rw [nsq_sub_shift C pS pB, h1]; ring
+  · rw [nsq_sub_shift C pS pE, h2, hfD]; ring
+  · rw [hC]; simp only [dot, sub, add, smul, cross, unitVec]; ring
+
+example : arc3Denom (⟨1, 0, 0⟩ : Vec Rat) ⟨0, 1, 0⟩ ⟨-1, 0, 0⟩ ≠ 0 ∧
+    arc3Centre (⟨1, 0, 0⟩ : Vec Rat) ⟨0, 1, 0⟩ ⟨-1, 0, 0⟩ = ⟨0, 0, 0⟩ := by
+  norm_num [arc3Denom, arc3Centre, nsq, dot, sub, add, smul, cross, unitVec]
+
+/-- when the code decides "exterior" (`dot(cross(r1,r2), cross(r1,r3)) < 0`) the third point is indeed not inside
+    the minor sector -/
+theorem T_C08_arc3_side_partial (r1 r2 r3 : Vec K) (h : arc3SideTest r1 r2 r3 < 0) : ¬ GeomInterior r1 r2 r3 := by
+  intro hg; exact absurd hg.1 (not_lt.mpr (le_of_lt h))
+
+/-- for a third point on the bisector of `r1, r3` (what `OriginEdge`/`AngleEdge` pass: the middle of the arc)
+    the code's decision is exactly right: interior on the same side, exterior on the opposite side -/
+theorem T_C08_arc3_side_mid (r1 r3 : Vec K) (lam : K) (hn : nsq (cross r1 r3) ≠ 0) :
+    let r2 := smul lam (add r1 r3)
+    (0 < lam → 0 ≤ arc3SideTest r1 r2 r3 ∧ GeomInterior r1 r2 r3) ∧
+    (lam < 0 → arc3SideTest r1 r2 r3 < 0 ∧ ¬ GeomInterior r1 r2 r3) := by
+  intro r2
+  have hpos : 0 < nsq (cross r1 r3) := by
+    have : 0 ≤ nsq (cross r1 r3) := by
+      simp only [nsq, dot]
+      have := mul_self_nonneg (cross r1 r3).x
+      have := mul_self_nonneg (cross r1 r3).y
+      have := mul_self_nonneg (cross r1 r3).z
+      linarith
+    exact lt_of_le_of_ne this (Ne.symm hn)
+  have e1 : arc3SideTest r1 r2 r3 = lam * nsq (cross r1 r3) := by
+    simp only [r2, arc3SideTest, nsq, dot, cross, smul, add]; ring
+  have e2 : dot (cross r2 r3) (cross r1 r3) = lam * nsq (cross r1 r3) := by
+    simp only [r2, nsq, dot, cross, smul, add]; ring
+  constructor
+  · intro hl
+    have : 0 < lam * nsq (cross r1 r3) := mul_pos hl hpos
+    refine ⟨by rw [e1]; exact le_of_lt this, ?_, ?_⟩
+    · have := e1; unfold arc3SideTest at this; rw [this]; assumption
+    · rw [e2]; assumption
+  · intro hl
+    have : lam * nsq (cross r1 r3) < 0 := mul_neg_of_neg_of_pos hl hpos
+    refine ⟨by rw [e1]; exact this, ?_⟩
+    exact T_C08_arc3_side_partial _ _ _ (by rw [e1]; exact this)
+
+example : nsq (cross (⟨1, 0, 0⟩ : Vec Rat) ⟨0, 1, 0⟩) ≠ 0 := by norm_num [nsq, dot, cross]
+
+/-- Full statement that does NOT hold for the code (and not for blockMesh's arcEdge, which decides the same way):
+      `0 ≤ arc3SideTest r1 r2 r3 → GeomInterior r1 r2 r3`   for three radii of one circle.
+    Counterexample (known finding `arc_length_3point:third-point-between-end-and-antipode`): on the unit circle,
+    start at 0°, end at 90°, third point at 126.9°: the arc through the third point is the 270° arc, the test says interior. -/
+theorem T_C08_arc3_side_counterexample :
+    ∃ r1 r2 r3 : Vec Rat, nsq r1 = 1 ∧ nsq r2 = 1 ∧ nsq r3 = 1 ∧ dot r2 (cross r1 r3) = 0 ∧
+      0 ≤ arc3SideTest r1 r2 r3 ∧ ¬ GeomInterior r1 r2 r3 := by
+  refine ⟨⟨1, 0, 0⟩, ⟨-3 / 5, 4 / 5, 0⟩, ⟨0, 1, 0⟩, ?_⟩
+  norm_num [nsq, dot, cross, arc3SideTest, GeomInterior]
+
+/-! ### every polyline is at least as long as its chord -/
+
+/-- `polyline_length` (sum of the segment lengths, each a witnessed square root) is non-negative and its square is at
+    least the squared distance of the first and the last point — for every point list and every witness list
+    (`SplineEdge`, `PolyLineEdge`, `OnCurveEdge`/`DiscreteCurve` lengths are polyline lengths from vertex 1 to vertex 2).
+    For two points the polyline length *is* the chord (line and project edges). -/
+theorem T_C08_chord (pts : List (Vec K)) (ds : List K) (first last : Vec K) (h : SegWit pts ds)
+    (hf : pts.head? = some first) (hl : pts.getLast? = some last) :
+    0 ≤ polyLen ds ∧ nsq (sub first last) ≤ polyLen ds * polyLen ds :=
+  chord_aux pts ds last h hl first hf
+
+example : SegWit ([⟨0, 0, 0⟩, ⟨3, 4, 0⟩, ⟨3, 4, 12⟩] : List (Vec Rat)) [5, 12] ∧
+    nsq (sub (⟨0, 0, 0⟩ : Vec Rat) ⟨3, 4, 12⟩) = 13 * 13 ∧ polyLen ([5, 12] : List Rat) = 17 := by
+  norm_num [SegWit, nsq, dot, sub, polyLen]
 
 end CBV.C08
